@@ -22,6 +22,9 @@ def configs(tier):
         Config(front="wsgi", backend="tree", prefix="/", features=feats | {"fsck"}, bodies=bodies, props=props, oracles={"C09"}),
         Config(front="wsgi", backend="bare", prefix="/", features=feats, bodies=bodies, props=props, oracles={"C09"}),
     ]
+    # a member that was stored unvalidated (uploaded as octet-stream under a .ics name) and is then overwritten with a calendar
+    out.append(Config(front="wsgi", backend="tree", prefix="/", features={"git", "fsck"}, names={"cal": ["a.ics"], "ab": [], "c2": []}, bodies={"cal": ["X", "X2", "TXT"], "ab": [], "c2": []},
+                      ct_for={"TXT": "application/octet-stream"}, props={}, oracles={"C09"}, label="tree/wsgi+raw-uploads"))
     # member names that point into the repository's control directory (the aiohttp front end has no git handler in front of them)
     out.append(Config(front="aio", backend="tree", prefix="/", features={"git", "fsck"}, names={"cal": ["a.ics", ".git/a.ics", ".git/z.ics"], "ab": [], "c2": []}, bodies={"cal": ["X", "X2"], "ab": [], "c2": []},
                       props={}, oracles={"C09"}, label="tree/aio+control-dir-names"))
